@@ -18,8 +18,11 @@ def work(patch):
     if ov is None:
         return patch, None
     out = []
+    from vsa.__main__ import parse_tree, clear_caches
+    clear_caches()
+    rp = parse_tree(overlay=ov)
     for p in sorted(RULES):
-        c = run_check(p, 'quick', overlay=ov, write=False, quiet=True)
+        c = run_check(p, 'quick', write=False, quiet=True, repo=rp)
         if c.status == 2:
             out.append('%s ANALYSIS-ERROR %s' % (p, (c.error or '')[:140]))
         for v in c.violations:
@@ -29,8 +32,10 @@ def work(patch):
 
 
 if __name__ == '__main__':
+    from vsa.__main__ import parse_tree
+    r0 = parse_tree()
     for p in sorted(RULES):
-        BASE[p] = {v.key() for v in run_check(p, 'quick', write=False, quiet=True).violations}
+        BASE[p] = {v.key() for v in run_check(p, 'quick', write=False, quiet=True, repo=r0).violations}
     patches = sys.argv[1:]
     with Pool(16) as pool:
         res = pool.map(work, patches, chunksize=1)
